@@ -17,7 +17,10 @@ LEAN = os.path.join(ROOT, "lean")
 BUILD = os.path.join(ROOT, ".build")
 WORK = os.path.join(ROOT, ".work")
 # evidence of runs against a scratch copy of the repository (VERIF_REPO set) must never overwrite the real evidence
-EVID = os.path.join(ROOT, "evidence") if REPO == "/repo" else os.path.join(ROOT, ".work", "evidence_scratch")
+# VERIF_FLAVOUR=cov runs a whole check against the gcov-instrumented build (tools/check_coverage.py): a measurement, never evidence
+FLAVOUR_OVERRIDE = os.environ.get("VERIF_FLAVOUR", "")
+EVID = (os.path.join(ROOT, "evidence") if REPO == "/repo" and not FLAVOUR_OVERRIDE
+        else os.path.join(ROOT, ".work", "evidence_scratch"))
 REPLAYS = os.path.join(ROOT, "replays")
 CORPUS = os.path.join(ROOT, "corpus")
 KNOWN = os.path.join(ROOT, "known_findings.json")
@@ -54,6 +57,8 @@ def source_hash(paths):
 
 # ---------------------------------------------------------------- librime builds
 def build_librime(flavour):
+    if FLAVOUR_OVERRIDE and flavour in ("san", "plain"):
+        flavour = FLAVOUR_OVERRIDE
     os.makedirs(BUILD, exist_ok=True)
     rc, out = sh([os.path.join(ROOT, "tools", "build_librime.sh"), flavour, REPO], timeout=3600)
     if rc != 0:
@@ -72,6 +77,8 @@ FLAV_FLAGS = {
 
 def build_harness(name, flavour, srcs, extra=None, libs=None):
     """Compile /verif/harness/<srcs> against librime built from the working tree."""
+    if FLAVOUR_OVERRIDE and flavour in ("san", "plain"):
+        flavour = FLAVOUR_OVERRIDE
     bdir = build_librime(flavour)
     odir = os.path.join(BUILD, "harness", os.path.basename(bdir))
     os.makedirs(odir, exist_ok=True)
